@@ -258,6 +258,8 @@ def _termination(facts, rep):
                     why = "iterates %s (not a known finite source)" % ty.strip()[:80]
             if not ok and _counted_loop(b, cfg, du, h, blks):
                 ok = True
+            if not ok and _read_count_loop(b, cfg, du, h, blks):
+                ok = True
             if n in tcp and not ok:
                 # the reconnect loop is the one permitted non-terminating loop; it must be unreachable without --tcp (C18)
                 rep.oblige(True, ("loop", n, "tcp"))
@@ -275,6 +277,34 @@ def _termination(facts, rep):
         rep.oblige(ok, "tcp dispatch")
         if not ok:
             rep.add(Finding("R01.2", "%s : TCP loop not guarded by tcp.is_empty()" % r, "the endless reconnect loop is not confined to the --tcp source", b.loc()))
+
+
+def _read_count_loop(b, cfg, du, h, blks):
+    """`loop { if reader.read_until(..)? == 0 { break } .. }`: every cycle reads from the (finite or blocking) input and the
+    loop is left when the reader reports end of input"""
+    from ..mirq import expr
+    blks = set(blks)
+    backs = [a for a, hh in cfg.back_edges() if hh == h]
+    reads = [bi for bi in blks if b.blocks[bi]["term"]["k"] == "call" and (b.blocks[bi]["term"]["callee"].get("path") or "") in
+             ("std::io::BufRead::read_until", "std::io::Read::read", "std::io::BufRead::skip_until")]
+    reads = [bi for bi in reads if all(cfg.dominates(bi, a) for a in backs)]
+    if not reads:
+        return False
+    for bi in sorted(blks):
+        t = b.blocks[bi]["term"]
+        if t["k"] != "switch":
+            continue
+        succ = [x for _, x in t["targets"]] + [t["otherwise"]]
+        if all(x in blks for x in succ) or not all(cfg.dominates(bi, a) for a in backs):
+            continue
+        e = expr(du, t["discr"])
+        if isinstance(e, tuple) and e[0] == "bin" and e[1] in ("Eq", "Ne") and ("const", 0) in (e[2], e[3]):
+            o = e[3] if e[2] == ("const", 0) else e[2]
+            if o[0] == "path":
+                o = o[1]
+            if o[0] == "call" and o[1].split("::")[-1] in ("read_until", "read", "skip_until"):
+                return True
+    return False
 
 
 def _counted_loop(b, cfg, du, h, blks):
